@@ -39,9 +39,9 @@ bool doubles_equal(double d1, double d2, double threshold)
     if (PlatformSpecificIsNan(d1) || PlatformSpecificIsNan(d2) || PlatformSpecificIsNan(threshold))
         return false;
 
-    if (PlatformSpecificIsInf(d1) && PlatformSpecificIsInf(d2))
+    if (PlatformSpecificIsInf(d1) && PlatformSpecificIsInf(d2) && (d1 > 0) == (d2 > 0))
     {
-        return (d1 > 0) == (d2 > 0); /* only the same infinity is equal */
+        return true; /* the same infinity; opposite infinities are compared by their difference below */
     }
 
     return PlatformSpecificFabs(d1 - d2) <= threshold;
